@@ -3,6 +3,8 @@ package participle
 import (
 	"fmt"
 	"strings"
+
+	"github.com/alecthomas/participle/v2/lexer"
 )
 
 // Perform some post-construction validation. This currently does:
@@ -116,6 +118,12 @@ func nullableNodes(root *strct) map[node]bool {
 			return nullable[n.node]
 		case *lookaheadGroup:
 			return true
+		case *reference:
+			// The EOF token is never consumed: matching it leaves the parser where it was.
+			return n.typ == lexer.EOF
+		case *literal:
+			// An untyped "" matches any token, the EOF token included.
+			return n.s == "" && n.t == lexer.EOF
 		}
 		return false
 	}
